@@ -37,7 +37,14 @@ RULE = (
     "cp_als / tucker_als, block data; (5) every documented numeric option of cp_apr (epsDivZero, kappa, kappatol, epsActive, "
     "mu0, lbfgsMem, maxinneriters, printinneritn) and of LBFGSB (m, factr, pgtol, maxfun, maxls, maxiter up to 1000) over "
     "its admissible range, stoptol log-uniform, data magnitude 1e-6..1e6 (cp_apr data become rates), scale factors up to "
-    "1e+-6.  cp_als pairs on instances where ALS itself breaks down are not judged (see C09)."
+    "1e+-6.  cp_als pairs on instances where ALS itself breaks down are not judged (see C09).  Round 3 classes: (6) data magnitude "
+    "also 1e-9, 1e-10, 1e-12, 1e+9, scale factors also 1e-9, 1e-12, 1e+9, 1e+12, given cp_als guesses of magnitude 1e-9 / 1e-12 / "
+    "1e+9 / 10^k per column, tucker_als starts unit-length non-orthogonal / nearly orthonormal / nearly identity / tiny / huge; "
+    "(7) one problem in 40 is larger (5..6 modes, rank 4..8, a mode of 40..60, 1e4..4e4 cells / stored nonzeros); (8) hosvd on "
+    "spectra over 8..13 decades and low rank + noise 1e-7..1e-5 with tol between adjacent rank-switch values down to 3e-6; (9) the "
+    "call-history cells change one entry of the long-lived data object by item assignment, call on it and change it back -- "
+    "before the first solution of P or between the two -- and compare with objects built afresh; the first result must stay "
+    "bit-identical; (10) cp_apr stoptime 0 / 1e-9 (one sweep), LBFGSB maxls 1..3 and maxfun 1, stoptol 2.5 / 1e300, maxiters 1."
 )
 ASSUMPTIONS = [
     "bulk numeric content expanded by np.random.default_rng from Hypothesis-drawn integer seeds",
@@ -103,13 +110,33 @@ def _inv(p):
 
 @st.composite
 def _als_problem(draw, tier, sparse=False):
-    R = draw(st.sampled_from([1, 2, 2, 3]))
-    N = draw(st.sampled_from([2, 3, 3, 4] if tier == "quick" else [2, 3, 3, 4, 4, 5]))
-    hi = 5 if tier == "quick" else 6
-    shape = [draw(st.integers(max(R, 2), max(R, hi))) if not (R == 1 and draw(st.integers(0, 5)) == 0) else 1
-             for _ in range(N)]
-    while ref.prod(shape) > (160 if tier == "quick" else 500) and max(shape) > max(R, 2):
-        shape[shape.index(max(shape))] -= 1
+    big = draw(st.integers(0, 39)) == 0
+    if big:
+        # class 7: a few larger problems per run (5..6 modes, rank up to 8, a mode of 40..60; up to ~2e4 cells)
+        kind = draw(st.integers(0, 10**6)) % 4
+        if kind == 3:  # 1e4 .. 4e4 cells / stored nonzeros
+            R, N = draw(st.integers(2, 4)), 3
+            shape = [draw(st.integers(22, 34)) for _ in range(N)]
+        elif kind == 0:
+            R, N = draw(st.integers(1, 3)), draw(st.sampled_from([5, 6]))
+            shape = [draw(st.integers(max(R, 2), 4)) for _ in range(N)]
+        elif kind == 1:
+            R, N = draw(st.integers(4, 8)), draw(st.sampled_from([3, 3, 4]))
+            shape = [draw(st.integers(R, R + 3)) for _ in range(N)]
+        else:
+            R, N = draw(st.integers(2, 5)), draw(st.sampled_from([3, 3, 4]))
+            shape = [draw(st.integers(max(R, 2), R + 2)) for _ in range(N)]
+            shape[draw(st.integers(0, N - 1))] = draw(st.integers(40, 60))
+        while ref.prod(shape) > 20000 and kind != 3:
+            shape[max((i for i in range(N) if shape[i] <= 20), key=lambda i: shape[i])] -= 1
+    else:
+        R = draw(st.sampled_from([1, 2, 2, 3]))
+        N = draw(st.sampled_from([2, 3, 3, 4] if tier == "quick" else [2, 3, 3, 4, 4, 5]))
+        hi = 5 if tier == "quick" else 6
+        shape = [draw(st.integers(max(R, 2), max(R, hi))) if not (R == 1 and draw(st.integers(0, 5)) == 0) else 1
+                 for _ in range(N)]
+        while ref.prod(shape) > (160 if tier == "quick" else 500) and max(shape) > max(R, 2):
+            shape[shape.index(max(shape))] -= 1
     rtrue = draw(st.sampled_from([R, R, R + 1]))
     c = dict(shape=shape, R=R, rtrue=rtrue, noise=draw(st.sampled_from([1e-3, 1e-2, 0.1, 0.5])),
              data_seed=draw(st.integers(0, 10**6)), style=draw(st.sampled_from(["normal", "uniform"])),
@@ -119,10 +146,10 @@ def _als_problem(draw, tier, sparse=False):
              sp_state=draw(st.sampled_from(["plain", "plain", "explicit-zeros", "np-shape", "from-tensor", "halved-doubled"])),
              prov=draw(st.sampled_from(H.PROVS_F64)),
              init=draw(st.sampled_from(["normal", "uniform", "normal", "uniform"] + list(H.STRUCTURED_INITS))),
-             init_seed=draw(st.integers(0, 10**6)), init_weights="unit",
+             init_seed=draw(st.integers(0, 10**6)), init_weights="unit", init_scale=draw(st.sampled_from(H.GUESS_SCALES)),
              np_seed=draw(st.integers(0, 2**31 - 1)),
              dimorder=draw(st.one_of(st.none(), st.permutations(range(N)).map(list))),
-             maxiters=draw(st.integers(1, 5)), fixsigns=draw(st.booleans()))
+             maxiters=draw(st.integers(1, 5 if not big else 3)), fixsigns=draw(st.booleans()))
     if draw(st.integers(0, 3)) == 0:
         k = draw(st.integers(1, N))
         c["optdims"] = list(draw(st.permutations(range(N))))[:k]
@@ -151,7 +178,9 @@ def _als_labels(ctx, case):
     ctx.label(f"order{N}", f"R{R}", f"noise-{case['noise']}", "optdims-subset" if case.get("optdims") else "optdims-all",
               "distinct-sizes" if len(set(case["shape"])) > 1 else "cubical", "scale-%g" % float(case.get("scale", 1.0)),
               "dtype-" + case.get("dtype", "float64"),
-              "guess-structured" if case.get("init") in H.STRUCTURED_INITS else "guess-generic")
+              "guess-structured" if case.get("init") in H.STRUCTURED_INITS else "guess-generic",
+              "problem-large" if N >= 5 or ref.prod(case["shape"]) > 700 else "problem-small",
+              "guess-scale-%s" % case.get("init_scale", 1.0), "maxiters-1" if int(case["maxiters"]) == 1 else "maxiters>1")
 
 
 def _als_breakdown(case, A):
@@ -301,7 +330,7 @@ def als_same_seed(ctx, case):
 
 @st.composite
 def _scale(draw):
-    kind = draw(st.sampled_from(["pow2", "pow2", "3.7", "1e-3", "1e-6", "1e6", "1e3"]))
+    kind = draw(st.sampled_from(["pow2", "pow2", "3.7", "1e-3", "1e-6", "1e6", "1e3", "1e-9", "1e-12", "1e9", "1e12"]))
     if kind == "pow2":
         return float(2.0 ** draw(st.integers(-40, 40).filter(lambda k: k != 0)))
     return float(kind)
@@ -465,6 +494,10 @@ def _apr_strategy(alg, relation):
         # reduced rate there
         c["sp_state"] = draw(st.sampled_from(["plain", "plain", "explicit-zeros", "np-shape"] if alg == "mu" else
                                              ["plain"] * 6 + ["np-shape"] * 3 + ["explicit-zeros"]))
+        # class 10: a time limit that ends the run after its first sweep (every sweep takes longer than 0 s)
+        st_ = draw(st.sampled_from([None] * 7 + [0.0, 1e-9]))
+        if st_ is not None:
+            c["stoptime"] = st_
         wide = draw(st.booleans())
         c["wide"] = wide
         if wide:
@@ -505,7 +538,7 @@ def _apr_strategy(alg, relation):
 def _apr(data, case, init, printitn=0, printinneritn=0):
     kw = dict(algorithm=case["alg"], stoptol=float(case["stoptol"]), maxiters=int(case["maxiters"]),
               maxinneriters=int(case["maxinneriters"]), init=init, printitn=printitn, printinneritn=printinneritn)
-    for k in ("kappa", "inexact", "precompinds", "lbfgsMem", "epsDivZero", "kappatol", "mu0", "epsActive"):
+    for k in ("kappa", "inexact", "precompinds", "lbfgsMem", "epsDivZero", "kappatol", "mu0", "epsActive", "stoptime"):
         if k in case:
             kw[k] = case[k]
     if isinstance(init, str):
@@ -539,7 +572,8 @@ def _apr_labels(ctx, case, A):
     empty = any(not np.any(np.moveaxis(A, k, 0)[i]) for k in range(A.ndim) for i in range(A.shape[k]))
     ctx.label(f"order{N}", f"R{R}", "has-empty-slice" if empty else "no-empty-slice", f"stoptol-{case['stoptol']}",
               f"intensity-{case['intensity']}", "scale-%g" % float(case.get("scale", 1.0)), "dtype-" + case.get("dtype", "float64"),
-              "options-wide-range" if case.get("wide") else "options-default")
+              "options-wide-range" if case.get("wide") else "options-default",
+              "stoptime-0" if "stoptime" in case else "stoptime-default", "maxiters-1" if int(case["maxiters"]) == 1 else "maxiters>1")
     if "epsDivZero" in case:
         ctx.label("epsDivZero>=1e-6" if case["epsDivZero"] >= 1e-6 else "epsDivZero<1e-6")
 
@@ -627,7 +661,9 @@ def _apr_body(relation):
                 ra, ta = _apr_call(ctx, "cp_apr-silent", X, case, apr_init(case))
                 rb, tb = _apr_call(ctx, "cp_apr-printing", X, case, apr_init(case), printitn=int(case["printitn"]),
                                    printinneritn=int(case["printinneritn"]))
-                ctx.check(ta.strip() == "" and tb.strip() != "", "printing-setting-takes-effect", (ta[:40], tb[:40]))
+                # (pdnr / pqnr announce an exceeded time limit whatever printitn says: not what this clause is about)
+                ta_ = "\n".join(ln for ln in ta.splitlines() if "time limit exceeded" not in ln)
+                ctx.check(ta_.strip() == "" and tb.strip() != "", "printing-setting-takes-effect", (ta[:40], tb[:40]))
                 rerun = lambda w, g: _apr(X, case, g, printitn=int(case["printitn"]) if w else 0,  # noqa: E731
                                           printinneritn=int(case["printinneritn"]) if w else 0)[0]
             else:
@@ -695,14 +731,27 @@ for _alg in ("mu", "pdnr", "pqnr"):
 def _hosvd_problem(draw, tier):
     N = draw(st.sampled_from([2, 3, 3, 4] if tier == "quick" else [2, 3, 3, 4, 4]))
     hi = 5 if tier == "quick" else 6
-    shape = [draw(st.integers(2, hi)) for _ in range(N)]
-    while ref.prod(shape) > (200 if tier == "quick" else 600):
-        shape[shape.index(max(shape))] -= 1
+    if draw(st.integers(0, 39)) == 0:
+        # class 7: a few larger problems per run (5..6 modes, or a mode of 40..60; up to ~2e4 cells)
+        if draw(st.integers(0, 10**6)) % 2 == 0:
+            N = draw(st.sampled_from([5, 6]))
+            shape = [draw(st.integers(2, 4)) for _ in range(N)]
+        else:
+            N = max(N, 3)
+            shape = [draw(st.integers(2, 8)) for _ in range(N)]
+            shape[draw(st.integers(0, N - 1))] = draw(st.integers(40, 60))
+            while ref.prod(shape) > 20000:
+                shape[max((i for i in range(N) if shape[i] <= 20), key=lambda i: shape[i])] -= 1
+    else:
+        shape = [draw(st.integers(2, hi)) for _ in range(N)]
+        while ref.prod(shape) > (200 if tier == "quick" else 600):
+            shape[shape.index(max(shape))] -= 1
     dtype = draw(st.sampled_from(["float64"] * 8 + sorted(C10.INT_RANGE)))
     if dtype in C10.INT_RANGE:
         kind = "int-lowrank"
     else:
-        kind = draw(st.sampled_from(["tucker-decay", "tucker-decay", "lowrank-noise", "block"]))
+        # superdiag with a spectrum over 8..13 decades / low rank + noise at 1e-7 .. 1e-5: rank-switch values down to 1e-6
+        kind = draw(st.sampled_from(["tucker-decay", "tucker-decay", "lowrank-noise", "block", "superdiag", "near-lowrank"]))
     c = dict(shape=shape, kind=kind, data_seed=draw(st.integers(0, 10**6)), scale=draw(st.sampled_from(H.SCALES)),
              dtype=dtype, mag=draw(st.sampled_from(["small", "medium", "full"])),
              prov=draw(st.sampled_from(H.PROVS_F64 if dtype == "float64" else H.PROVS_ANY)),
@@ -710,6 +759,13 @@ def _hosvd_problem(draw, tier):
              noise=draw(st.sampled_from([0.05, 0.3, 1.0])), tol_mode=draw(st.integers(0, 3)), tol_index=draw(st.integers(0, 5)),
              sequential=draw(st.booleans()), dimorder=draw(st.one_of(st.none(), st.permutations(range(N)).map(list))),
              ranks=None)
+    if kind == "superdiag":
+        c["spectrum"] = draw(st.sampled_from(["wide-8", "wide-10", "wide-12", "wide-13", "strong-then-weak", "steep", "geometric"]))
+    if kind == "near-lowrank":
+        c["mlrank"] = [draw(st.integers(1, n)) for n in shape]
+        c["noise"] = draw(st.sampled_from([1e-7, 1e-6, 1e-5]))
+    if kind == "lowrank-noise":
+        c["noise"] = draw(st.sampled_from([1e-6, 1e-5, 0.05, 0.3, 1.0]))
     if draw(st.integers(0, 4)) == 0:
         c["ranks"] = [draw(st.integers(1, n)) for n in shape]
     return c
@@ -726,6 +782,9 @@ def _mid_tol(A, case):
         cands.append(float(np.sqrt(sw[-1] * 0.99)))
     if not sw:
         cands.append(0.5)
+    # below 3e-6 a tail sum (tol^2 ||X||^2 / d ~ 1e-12 ||X||^2) is no longer resolved to a percent by the Gram matrices
+    # (eps ||X||^2 per eigenvalue): the rank choice itself would then depend on rounding
+    cands = [t for t in cands if t >= 3e-6]
     if not cands:
         return None
     return cands[(int(case["tol_index"]) + 7 * int(case["tol_mode"])) % len(cands)]
@@ -760,7 +819,8 @@ def _hosvd_setup(ctx, case):
     N = A.ndim
     ctx.label(f"order{N}", case["kind"], "sequential" if case["sequential"] else "all-at-once",
               "ranks-given" if case["ranks"] is not None else "ranks-auto", "dtype-" + case.get("dtype", "float64"),
-              "scale-%g" % float(case.get("scale", 1.0)))
+              "scale-%g" % float(case.get("scale", 1.0)), "problem-large" if N >= 5 or A.size > 700 else "problem-small",
+              "tol<1e-4" if tol < 1e-4 else ("tol<1e-2" if tol < 1e-2 else "tol>=1e-2"))
     return A, tol
 
 
@@ -862,19 +922,32 @@ def hosvd_relabel(ctx, case):
 def _tucker_problem(draw, tier):
     N = draw(st.sampled_from([2, 3, 3, 4] if tier == "quick" else [2, 3, 3, 4, 4]))
     hi = 5 if tier == "quick" else 6
-    shape = [draw(st.integers(2, hi)) for _ in range(N)]
-    while ref.prod(shape) > (200 if tier == "quick" else 500):
-        shape[shape.index(max(shape))] -= 1
-    rank = [draw(st.integers(1, n)) for n in shape]
+    big = draw(st.integers(0, 39)) == 0
+    if big:
+        # class 7: a few larger problems per run (5..6 modes, or a mode of 40..60; up to ~2e4 cells)
+        if draw(st.integers(0, 10**6)) % 2 == 0:
+            N = draw(st.sampled_from([5, 6]))
+            shape = [draw(st.integers(2, 4)) for _ in range(N)]
+        else:
+            N = max(N, 3)
+            shape = [draw(st.integers(2, 8)) for _ in range(N)]
+            shape[draw(st.integers(0, N - 1))] = draw(st.integers(40, 60))
+            while ref.prod(shape) > 20000:
+                shape[max((i for i in range(N) if shape[i] <= 20), key=lambda i: shape[i])] -= 1
+    else:
+        shape = [draw(st.integers(2, hi)) for _ in range(N)]
+        while ref.prod(shape) > (200 if tier == "quick" else 500):
+            shape[shape.index(max(shape))] -= 1
+    rank = [draw(st.integers(1, min(n, 8))) for n in shape]
     for _ in range(2 * N):
         for n in range(N):
             rank[n] = min(rank[n], ref.prod(rank) // rank[n])
     # the data have a clear multilinear-rank structure at exactly the requested ranks plus noise: a spectral gap at the cut
-    c = dict(shape=shape, kind="tucker-noise", mlrank=list(rank), noise=draw(st.sampled_from([1e-3, 1e-2, 0.1])),
+    c = dict(shape=shape, kind="tucker-noise", mlrank=list(rank), noise=draw(st.sampled_from([1e-6, 1e-3, 1e-2, 0.1])),
              scale=draw(st.sampled_from(H.SCALES)), prov=draw(st.sampled_from(H.PROVS_F64)),
              data_seed=draw(st.integers(0, 10**6)), rank=rank, rank_form="list", init="list", init_seed=draw(st.integers(0, 10**6)),
              np_seed=draw(st.integers(0, 2**31 - 1)), dimorder=draw(st.one_of(st.none(), st.permutations(range(N)).map(list))),
-             form="list", maxiters=draw(st.integers(1, 4)))
+             form="list", maxiters=draw(st.integers(1, 4 if not big else 2)))
     return c
 
 
@@ -894,7 +967,9 @@ def _tucker_labels(ctx, case):
     N = len(case["shape"])
     ctx.nt = N >= 3 and any(r < n for r, n in zip(case["rank"], case["shape"])) and max(case["rank"]) >= 2
     ctx.label(f"order{N}", f"noise-{case['noise']}", "truncating" if any(r < n for r, n in zip(case["rank"], case["shape"]))
-              else "full-ranks", "scale-%g" % float(case.get("scale", 1.0)))
+              else "full-ranks", "scale-%g" % float(case.get("scale", 1.0)),
+              "problem-large" if N >= 5 or ref.prod(case["shape"]) > 700 else "problem-small",
+              "maxiters-1" if int(case["maxiters"]) == 1 else "maxiters>1")
 
 
 def _tucker_hold(case, A):
@@ -976,7 +1051,8 @@ def tucker_same_seed(ctx, case):
 def _tucker_scale_case(draw, tier):
     c = draw(_tucker_problem(tier))
     c["c"] = draw(_scale())
-    c["init"] = draw(st.sampled_from(["list", "list-orth", "nvecs", "list-eye", "list-zeros"]))
+    c["init"] = draw(st.sampled_from(["list", "list-orth", "nvecs", "list-eye", "list-zeros", "list-unit", "list-near-orth",
+                                      "list-near-eye", "list-tiny", "list-huge"]))
     return c
 
 
@@ -998,7 +1074,8 @@ def _tucker_relabel_case(draw, tier):
     c = draw(_tucker_problem(tier))
     N = len(c["shape"])
     c["perm"] = list(draw(st.permutations(range(N))))
-    c["init"] = draw(st.sampled_from(["list", "list-orth", "list-eye", "list-zeros"]))
+    c["init"] = draw(st.sampled_from(["list", "list-orth", "list-eye", "list-zeros", "list-unit", "list-near-orth", "list-near-eye",
+                                      "list-tiny", "list-huge"]))
     if c["dimorder"] is None and draw(st.booleans()):
         c["dimorder"] = list(draw(st.permutations(range(N))))
     return c
@@ -1075,8 +1152,8 @@ def _lbfgsb_options(draw):
                 m=draw(st.sampled_from([None, None, 1, 3, 10, 25])),
                 factr=draw(st.sampled_from([None, None, 1e7, 10.0, 1e12])),
                 pgtol=draw(st.sampled_from([None, None, None, 1e-12, 1e-5, 1e-2])),
-                maxfun=draw(st.sampled_from([None, None, 3, 1000])),
-                maxls=draw(st.sampled_from([None, None, 2, 40])))
+                maxfun=draw(st.sampled_from([None, None, 1, 3, 1000])),
+                maxls=draw(st.sampled_from([None, None, 1, 2, 3, 40])))
 
 
 @st.composite
@@ -1217,7 +1294,48 @@ def _hist(draw, strat, tier):
     c = draw(strat(tier))
     c["others"] = [draw(strat(tier)) for _ in range(draw(st.integers(1, 3)))]
     c["minimal"] = draw(st.booleans())  # P leaves every option it can at its default; the calls in between give theirs
+    # class 9: between the two solutions of P its data object is changed by item assignment, used for a call, and changed back
+    c["edit_seed"] = draw(st.one_of(st.none(), st.integers(0, 10**6), st.integers(0, 10**6)))
     return c
+
+
+def _edit_first(case):
+    """half of the edited histories have the edit (and the call on the edited object) before the first solution of P"""
+    return case.get("edit_seed") is not None and int(case["edit_seed"]) % 2 == 0
+
+
+def _edited_call(ctx, X, A, case, run, first=False, always=False):
+    """the long-lived data object X (denoting A) gets another value in one entry by item assignment, `run` is called on it,
+    and the entry gets its old value back.  Returns False when the object does not denote A again afterwards (item
+    assignment is judged by other properties)."""
+    if case.get("edit_seed") is None:
+        if not first:
+            ctx.label("data-object-left-alone-between-the-calls")
+        return True
+    if first != _edit_first(case) and not always:
+        return True
+    rng = np.random.default_rng([103, int(case["edit_seed"])])
+    idx = tuple(int(rng.integers(0, n)) for n in A.shape)
+    dt = np.asarray(X.data if isinstance(X, ttb.tensor) else X.vals).dtype
+    if dt.kind in "iu":
+        old = int(round(float(A[idx])))
+        new = old - 1 if old > 0 else old + 1
+    elif ref.is_intvalued(A):  # counts held as floats stay counts
+        old = float(A[idx])
+        new = old - 1.0 if old > 0 else old + 1.0
+    else:
+        old = float(A[idx])
+        new = old + (float(np.sqrt(H.sq(A) / A.size)) or 1.0) * float(rng.uniform(0.5, 2.0))
+    ctx.label("data-object-edited-and-restored-" + ("before-the-first-call" if first else "between-the-calls"))
+    try:
+        X[idx] = new
+        try:
+            run()
+        except Exception:  # noqa: BLE001
+            ctx.label("call-in-between-raised")
+    finally:
+        X[idx] = old
+    return bool(np.array_equal(ref.den(X), np.asarray(A, dtype=float)))
 
 
 def _als_min(X, case, g):
@@ -1240,17 +1358,29 @@ def als_history(ctx, case):
     g = H.build_init(case)
 
     def rel():
+        if not _edited_call(ctx, X, A, case, lambda: _als_min(X, case, g), first=True):
+            ctx.label("restored-object-differs-not-judged")
+            return
         with ctx.sut("cp_als-first"):
             ra = _als_min(X, case, g)
+        snap_a = (H.snapshot(ra[0]), H.snapshot(ra[1])) if isinstance(ra, tuple) and len(ra) == 3 else None
         for q in case["others"]:
             Xq, Aq = H.build_data(q)
             try:  # what these calls return (or raise) is judged by the other cells; here they only make history
                 _als(Xq, q, H.build_init(q), printitn=int(q.get("maxiters", 1)) % 2)
             except Exception:  # noqa: BLE001
                 ctx.label("call-in-between-raised")
+        if not _edited_call(ctx, X, A, case, lambda: _als_min(X, case, g)):
+            ctx.label("restored-object-differs-not-judged")
+            return
         with ctx.sut("cp_als-again"):
             rb = _als_min(X, case, g)
         _als_pair(ctx, ra, rb, case["shape"], int(case["R"]), H.sq(A), tag="history")
+        ctx.check(snap_a is None or (H.snapshot(ra[0]), H.snapshot(ra[1])) == snap_a, "history-first-result-unchanged-by-later-calls")
+        # the long-lived objects against objects built afresh for the same problem
+        with ctx.sut("cp_als-fresh-objects"):
+            rc = _als_min(H.build_data(case)[0], case, H.build_init(case))
+        _als_pair(ctx, ra, rc, case["shape"], int(case["R"]), H.sq(A), tag="history-vs-fresh-objects")
 
     _als_judged(ctx, case, A, rel)
 
@@ -1269,6 +1399,9 @@ def tucker_history(ctx, case):
         with H.captured():
             return ttb.tucker_als(X, list(case["rank"]), stoptol=0.0, maxiters=int(case["maxiters"]), init=g)
 
+    if not _edited_call(ctx, X, A, case, run, first=True):
+        ctx.label("restored-object-differs-not-judged")
+        return
     with ctx.sut("tucker_als-first"):
         ra = run()
     for q in case["others"]:
@@ -1276,9 +1409,18 @@ def tucker_history(ctx, case):
             _tucker(_tucker_hold(q, C10.tucker_data(q)), q, C10._tucker_init(q), printitn=int(q["maxiters"]) % 2, stoptol=1e-3)
         except Exception:  # noqa: BLE001
             ctx.label("call-in-between-raised")
+    snap_a = (H.snapshot(ra[0]), H.snapshot(ra[1])) if isinstance(ra, tuple) and len(ra) == 3 else None
+    if not _edited_call(ctx, X, A, case, run):
+        ctx.label("restored-object-differs-not-judged")
+        return
     with ctx.sut("tucker_als-again"):
         rb = run()
     _tucker_pair(ctx, ra, rb, A, case, tag="history")
+    ctx.check(snap_a is None or (H.snapshot(ra[0]), H.snapshot(ra[1])) == snap_a, "history-first-result-unchanged-by-later-calls")
+    X, g = _tucker_hold(case, A), C10._tucker_init(case)  # objects built afresh for the same problem (`run` reads X and g)
+    with ctx.sut("tucker_als-fresh-objects"):
+        rc = run()
+    _tucker_pair(ctx, ra, rc, A, case, tag="history-vs-fresh-objects")
 
 
 @cell("C18/hosvd/call-history", strategy=lambda tier: st.composite(lambda draw: _hist(draw, _hosvd_print_case, tier))(),
@@ -1294,6 +1436,9 @@ def hosvd_history(ctx, case):
         with H.captured():
             return ttb.hosvd(X, tol)
 
+    if not _edited_call(ctx, X, A, case, run, first=True):
+        ctx.label("restored-object-differs-not-judged")
+        return
     with ctx.sut("hosvd-first"):
         Ta = run()
     for q in case["others"]:
@@ -1302,11 +1447,22 @@ def hosvd_history(ctx, case):
             _hosvd(_hosvd_hold(q, Aq), _mid_tol(Aq, q) or 0.3, q, verbosity=q["verbosity"])
         except Exception:  # noqa: BLE001
             ctx.label("call-in-between-raised")
+    snap_a = H.snapshot(Ta)
+    if not _edited_call(ctx, X, A, case, run):
+        ctx.label("restored-object-differs-not-judged")
+        return
     with ctx.sut("hosvd-again"):
         Tb = run()
+    ctx.check(H.snapshot(Ta) == snap_a, "history-first-result-unchanged-by-later-calls")
     if case["minimal"]:
         case = dict(case, sequential=True, ranks=None)
     _hosvd_pair(ctx, Ta, Tb, A, case, tag="history")
+    nt = ctx.nt
+    X = _hosvd_hold(case, A)  # an object built afresh for the same problem (`run` reads X)
+    with ctx.sut("hosvd-fresh-object"):
+        Tc = run()
+    _hosvd_pair(ctx, Ta, Tc, A, case, tag="history-vs-fresh-object")
+    ctx.nt = nt
 
 
 def _apr_history_body(ctx, case):
@@ -1341,6 +1497,9 @@ def _apr_history_body(ctx, case):
                 _apr(apr_holders(q, Aq)[0 if q["holder"] == "tensor" else 1], q, apr_init(q), printitn=int(q["maxiters"]) % 2)
             except Exception:  # noqa: BLE001
                 ctx.label("call-in-between-raised")
+        if not _edited_call(ctx, X, A, case, lambda: run(apr_init(case)), always=True):
+            ctx.label("restored-object-differs-not-judged")
+            return
         try:
             rb = run(g)
         except AssertionError as e:
